@@ -5,6 +5,7 @@ import (
 	"errors"
 	"fmt"
 	"math/big"
+	"strings"
 	"time"
 
 	"github.com/vipnode/vipnode/v2/internal/verifapi"
@@ -77,6 +78,12 @@ func VerifC07History() {
 	steps := verifapi.Param("steps", 3)
 	nw := verifapi.Param("wallets", 1)
 	wals := []store.Account{store.Account(verifapi.Wallet(0)), store.Account(verifapi.Wallet(1))}[:nw]
+	if verifapi.Bool("lowercase-wallets") {
+		// a wallet may name (and sign for) its address in any case: the ledger is keyed by the string it uses
+		for i := range wals {
+			wals[i] = store.Account("0x" + strings.ToLower(string(wals[i])[2:]))
+		}
+	}
 	owed := map[store.Account]*big.Int{} // deposits + accrued credit not yet settled
 	ever := map[store.Account]*big.Int{} // everything ever deposited or earned
 	for i, a := range wals {
